@@ -67,24 +67,25 @@ func mkItem(kind, k, v int) btree.Item {
 }
 
 type act struct {
-	Op  string `json:"op"`
-	H   int    `json:"h"`
-	H2  int    `json:"h2"`
-	K   int    `json:"k"`
-	V   int    `json:"v"`
-	O   int    `json:"o"`
-	Fn  string `json:"fn"`
-	P   int    `json:"p"`
-	Q   int    `json:"q"`
-	Fm  int    `json:"fm"`
-	Fr  []int  `json:"fr"`
-	N   int    `json:"n"`
-	Fl  bool   `json:"fl"`
-	Pn  bool   `json:"pn"` // p / q passed as nil (no bound on that side)
-	Qn  bool   `json:"qn"`
-	Max bool   `json:"max"`
-	Api string `json:"api"`
-	Deg int    `json:"deg"`
+	Op   string `json:"op"`
+	H    int    `json:"h"`
+	H2   int    `json:"h2"`
+	K    int    `json:"k"`
+	V    int    `json:"v"`
+	O    int    `json:"o"`
+	Fn   string `json:"fn"`
+	P    int    `json:"p"`
+	Q    int    `json:"q"`
+	Fm   int    `json:"fm"`
+	Fr   []int  `json:"fr"`
+	N    int    `json:"n"`
+	Fl   bool   `json:"fl"`
+	Pn   bool   `json:"pn"` // p / q passed as nil (no bound on that side)
+	Qn   bool   `json:"qn"`
+	Max  bool   `json:"max"`
+	Keys []int  `json:"-"` // refill: the keys the generator believes the handle to hold (ascending)
+	Api  string `json:"api"`
+	Deg  int    `json:"deg"`
 }
 
 func (a act) rec() tr.E {
@@ -111,13 +112,15 @@ func (a act) rec() tr.E {
 		return tr.E{"op": a.Op, "h": a.H, "k": a.K, "n": a.N, "v": a.V}
 	case "drain":
 		return tr.E{"op": a.Op, "h": a.H, "n": a.N, "max": a.Max}
+	case "refill":
+		return tr.E{"op": a.Op, "h": a.H, "v": a.V}
 	}
 	return tr.E{"op": a.Op}
 }
 
 func isWrite(op string) bool {
 	switch op {
-	case "ins", "roi", "upd", "upsert", "del", "idel", "delmin", "delmax", "clear", "clone", "fill", "drain":
+	case "ins", "roi", "upd", "upsert", "del", "idel", "delmin", "delmax", "clear", "clone", "fill", "drain", "refill":
 		return true
 	}
 	return false
@@ -404,6 +407,14 @@ func (s *sut) do(a act) interface{} {
 			}
 		}
 		return rep
+	case "refill": // run-length encoded: a new item under every key the handle is believed to hold
+		rep := 0
+		for i, k := range a.Keys {
+			if t.ReplaceOrInsert(mk(k, a.V+i)) != nil {
+				rep++
+			}
+		}
+		return rep
 	case "drain": // run-length encoded: a.N times DeleteMin / DeleteMax
 		got := 0
 		for i := 0; i < a.N; i++ {
@@ -561,9 +572,9 @@ func (s *sut) obs(full bool, hs []int, dumps []int) tr.E {
 // ------------------------------------------------------------------ statistics (evidence only)
 
 type stats struct {
-	Events, Writes, Scans, Sweeps, Changes, MaxHeight, MaxKeys, Clones, Panics, RaceRounds, RaceKept, Compound, Cold, Stuck, Retained, CloneShapes, Drains, Duels, ReplaceSweeps, Scribbles, Gates int
-	Heights                                                                                                                                                                                        map[int]int
-	Degrees                                                                                                                                                                                        map[int]int
+	Events, Writes, Scans, Sweeps, Changes, MaxHeight, MaxKeys, Clones, Panics, RaceRounds, RaceKept, Compound, Cold, Stuck, Retained, CloneShapes, Drains, Duels, ReplaceSweeps, Scribbles, Gates, ShapeStates, ShapeClasses, ShapeTraces int
+	Heights                                                                                                                                                                                                                                map[int]int
+	Degrees                                                                                                                                                                                                                                map[int]int
 }
 
 var st = stats{Heights: map[int]int{}, Degrees: map[int]int{}}
@@ -571,20 +582,21 @@ var st = stats{Heights: map[int]int{}, Degrees: map[int]int{}}
 // ------------------------------------------------------------------ sequential runner
 
 type runner struct {
-	w      *tr.W
-	s      *sut
-	rng    *rand.Rand
-	lo, hi int // key domain (pivots are drawn from lo-1..hi+1)
-	ver    int
-	sweep  int            // probability (percent) of a scan sweep when the node structure changed
-	dumpK  int            // dump / full contents every dumpK-th write (1 = every write)
-	nw     int            // writes so far
-	last   map[int]string // structure signature per handle after its latest write
-	dead   bool
-	done   act // the action as executed (version / new handle filled in)
-	cur    act // the action being executed (for the watchdog's stuck event)
-	retain bool
-	buf    []pending
+	w       *tr.W
+	s       *sut
+	rng     *rand.Rand
+	lo, hi  int // key domain (pivots are drawn from lo-1..hi+1)
+	ver     int
+	sweep   int            // probability (percent) of a scan sweep when the node structure changed
+	dumpK   int            // dump / full contents every dumpK-th write (1 = every write)
+	nw      int            // writes so far
+	last    map[int]string // structure signature per handle after its latest write
+	dead    bool
+	done    act // the action as executed (version / new handle filled in)
+	cur     act // the action being executed (for the watchdog's stuck event)
+	retain  bool
+	buf     []pending
+	dumpOwn bool
 	// sh: the generator's own idea of which keys each handle holds, computed from the calls it
 	// issued (never from the tree's answers); used only to bias key choice towards present keys.
 	sh []map[int]bool
@@ -715,6 +727,17 @@ func (r *runner) emitCall(a act, withObs bool) {
 		a.V = r.ver + 1
 		r.ver += a.N
 	}
+	if a.Op == "refill" {
+		a.Keys = a.Keys[:0]
+		if a.H >= 1 && a.H <= len(r.sh) {
+			for k := range r.sh[a.H-1] {
+				a.Keys = append(a.Keys, k)
+			}
+		}
+		sort.Ints(a.Keys)
+		a.V = r.ver + 1
+		r.ver += len(a.Keys)
+	}
 	if a.Op == "clone" {
 		a.H2 = len(r.s.hs) + 1
 		st.Clones++
@@ -764,6 +787,9 @@ func (r *runner) emitCall(a act, withObs bool) {
 	}
 	if a.Op == "clone" {
 		hs = append(hs, a.H2)
+	}
+	if !full && r.dumpOwn {
+		dumps = hs // the structure of what was written, even when the other handles are not observed
 	}
 	o, msg := r.safeObs(full, hs, dumps)
 	if msg != "" {
@@ -1533,6 +1559,23 @@ func edgeRuns(w *tr.W, rng *rand.Rand, long bool) {
 			end(r)
 		}
 	}
+	// (e) saturation: a dense key domain inserted in random order; after EVERY insert two stored keys
+	// are replaced (a root that an insert has just filled stays full only until the next new key, and
+	// a replace walks its root-to-leaf path in that state, whatever else on it is full); every item is
+	// replaced at the end (one refill event).
+	for i, deg := range []int{2, 2, 2, 2, 2, 2, 2, 2, 3, 3, 3, 3, 3, 3, 4, 4, 4, 4} {
+		m := (9 + i%6) * deg
+		r := newRunner(w, rng, cfg{api: "inner", src: "saturate", deg: deg, fl: []int{-1, 0}[i%2], lo: 1, hi: m, dumpK: 1, kind: i % 3})
+		perm := rng.Perm(m)
+		for j, k := range perm {
+			r.step(act{Op: "roi", H: 1, K: k + 1})
+			for x := 0; x < 2 && !r.dead; x++ {
+				r.step(act{Op: "roi", H: 1, K: perm[rng.Intn(j+1)] + 1}) // one of the keys inserted so far
+			}
+		}
+		r.step(act{Op: "refill", H: 1})
+		end(r)
+	}
 	// (d) long runs
 	runs := []int{255, 256, 257}
 	for i, n := range runs {
@@ -1577,6 +1620,200 @@ func edgeRuns(w *tr.W, rng *rand.Rand, long bool) {
 			r.step(act{Op: "roi", H: 1, K: 7}) // small again: observed in full
 			end(r)
 		}
+	}
+}
+
+// ------------------------------------------------------------------ every reachable shape, small scope
+
+// shapeBFS explores, breadth first on the real tree (Clone() branches the exploration), every node
+// structure reachable at degree 2 with the keys 1..K by ReplaceOrInsert (new key or replace) and
+// Delete, identified by its full structural signature.  For the selected states (all of them, or a
+// sample stratified by shape class: height x root occupancy x full / minimal children) one trace
+// each is RECORDED on a fresh tree: the shortest call sequence that leads there, the state itself
+// (contents + dump), and then EVERY single operation from that state, each on a clone of its own:
+// ReplaceOrInsert of every key 1..K, Delete of every stored key, DeleteMin, DeleteMax - with the
+// structure of the written clone after each, and all handles at the end.  The exploration only
+// decides which sequences are recorded; what is recorded is judged by TLC like everything else.
+func fullSig(n *btree.VerifNode, sb *strings.Builder) {
+	if n == nil {
+		return
+	}
+	sb.WriteByte('(')
+	for i, x := range n.Items {
+		if i < len(n.Children) {
+			fullSig(n.Children[i], sb)
+		}
+		fmt.Fprintf(sb, " %d ", x.(kv).key())
+	}
+	if len(n.Children) > len(n.Items) {
+		fullSig(n.Children[len(n.Children)-1], sb)
+	}
+	sb.WriteByte(')')
+}
+
+func shapeClass(root *btree.VerifNode, deg int) string {
+	if root == nil {
+		return "nil"
+	}
+	max, min := 2*deg-1, deg-1
+	height, fullChild, fullLeaf, minNode := 0, false, false, false
+	var walk func(n *btree.VerifNode, d int, isRoot bool)
+	walk = func(n *btree.VerifNode, d int, isRoot bool) {
+		if d > height {
+			height = d
+		}
+		if !isRoot && len(n.Items) <= min {
+			minNode = true
+		}
+		if len(n.Children) == 0 && len(n.Items) >= max && !isRoot {
+			fullLeaf = true
+		}
+		for _, c := range n.Children {
+			if isRoot && len(c.Items) >= max {
+				fullChild = true
+			}
+			walk(c, d+1, false)
+		}
+	}
+	walk(root, 1, true)
+	occ := "mid"
+	switch {
+	case len(root.Items) >= max:
+		occ = "full"
+	case len(root.Items) <= 1:
+		occ = "one"
+	}
+	return fmt.Sprintf("h%d-%s-fc%v-fl%v-min%v", height, occ, fullChild, fullLeaf, minNode)
+}
+
+func shapeBFS(w *tr.W, rng *rand.Rand, K, perClass int) {
+	const deg = 2
+	type state struct {
+		t    *btree.BTree
+		path []act
+	}
+	crashed := false
+	sigOf := func(t *btree.BTree) (sg, class string) {
+		defer func() {
+			if p := recover(); p != nil {
+				crashed = true
+			}
+		}()
+		_, _, root := t.VerifDump()
+		var sb strings.Builder
+		fullSig(root, &sb)
+		return sb.String(), shapeClass(root, deg)
+	}
+	seen := map[string]bool{}
+	var all []state
+	classes := map[string][]int{}
+	queue := []state{{t: btree.New(deg)}}
+	sg0, _ := sigOf(queue[0].t)
+	seen[sg0] = true
+	for len(queue) > 0 && len(all) < 20000 && !crashed {
+		cur := queue[0]
+		queue = queue[1:]
+		_, cl := sigOf(cur.t)
+		classes[cl] = append(classes[cl], len(all))
+		all = append(all, cur)
+		for k := 1; k <= K; k++ {
+			for _, op := range []string{"roi", "idel"} {
+				var nt *btree.BTree
+				func() {
+					defer func() {
+						if p := recover(); p != nil {
+							nt = nil // the recorded traces will show the panic where it belongs
+						}
+					}()
+					nt = cur.t.Clone()
+					if op == "roi" {
+						nt.ReplaceOrInsert(item{k, 0})
+					} else {
+						nt.Delete(item{k, 0})
+					}
+				}()
+				if nt == nil {
+					continue
+				}
+				sg, _ := sigOf(nt)
+				if seen[sg] {
+					continue
+				}
+				seen[sg] = true
+				np := append(append([]act{}, cur.path...), act{Op: op, H: 1, K: k})
+				queue = append(queue, state{nt, np})
+			}
+		}
+	}
+	st.ShapeStates = len(all)
+	st.ShapeClasses = len(classes)
+	pick := map[int]bool{}
+	if perClass <= 0 {
+		for i := range all {
+			pick[i] = true
+		}
+	} else {
+		names := make([]string, 0, len(classes))
+		for c := range classes {
+			names = append(names, c)
+		}
+		sort.Strings(names)
+		for _, c := range names {
+			idx := classes[c]
+			rng.Shuffle(len(idx), func(i, j int) { idx[i], idx[j] = idx[j], idx[i] })
+			for i := 0; i < len(idx) && i < perClass; i++ {
+				pick[idx[i]] = true
+			}
+		}
+	}
+	for i, stt := range all {
+		if !pick[i] {
+			continue
+		}
+		r := newRunner(w, rng, cfg{api: "inner", src: "shape-bfs", deg: deg, fl: -1, lo: 1, hi: K, dumpK: 1 << 30, kind: 0})
+		r.dumpOwn = true
+		for _, a := range stt.path {
+			r.emitCall(a, false)
+			if r.dead {
+				break
+			}
+			r.shadow(r.done)
+		}
+		if !r.dead {
+			r.dumpK = 1
+			r.emitCall(act{Op: "nop"}, true) // the state itself
+			r.dumpK = 1 << 30
+		}
+		one := func(a act) { // the operation on a clone of its own
+			if r.dead {
+				return
+			}
+			r.emitCall(act{Op: "clone", H: 1}, false)
+			if r.dead {
+				return
+			}
+			r.shadow(r.done)
+			a.H = len(r.s.hs)
+			r.emitCall(a, true)
+			if !r.dead {
+				r.shadow(r.done)
+			}
+		}
+		for k := 1; k <= K; k++ {
+			one(act{Op: "roi", K: k})
+			if r.sh != nil && len(r.sh) > 0 && r.sh[0][k] {
+				one(act{Op: "idel", K: k})
+			}
+		}
+		one(act{Op: "delmin"})
+		one(act{Op: "delmax"})
+		if !r.dead {
+			r.dumpK = 1
+			r.emitCall(act{Op: "nop"}, true) // every handle: the original must be as it was
+		}
+		r.flush()
+		curRunner = nil
+		st.ShapeTraces++
 	}
 }
 
@@ -2389,6 +2626,8 @@ func main() {
 	nrace := flag.Int("nrace", 20000, "race rounds on the wrapper (at most)")
 	nracekeep := flag.Int("nracekeep", 1200, "race rounds with real overlap to keep")
 	shapeEvery := flag.Int("shapeevery", 1, "run every k-th clone-in-shape-class scenario (1 = all 216)")
+	bfsKeys := flag.Int("bfskeys", 9, "keys 1..K of the exhaustive shape exploration (degree 2)")
+	bfsPer := flag.Int("bfsper", 4, "shape states recorded per shape class (0 = every state)")
 	ngate := flag.Int("ngate", 150, "gated-reader rounds on the wrapper")
 	longRuns := flag.Bool("longruns", false, "also runs of 65535 / 65536 / 65537 items")
 	racesecs := flag.Int("racesecs", 12, "wall-clock budget of the race rounds (seconds)")
@@ -2470,6 +2709,7 @@ func main() {
 	}
 	cloneShapes(w, rng, *shapeEvery)
 	edgeRuns(w, rng, *longRuns)
+	shapeBFS(w, rng, *bfsKeys, *bfsPer)
 	for i := 0; i < *npar; i++ {
 		runParallel(w, rng, 2+i%3, 20+rng.Intn(30))
 	}
